@@ -158,7 +158,13 @@ def run_case(case, ctx):
                 except Exception:
                     pass
                 del rec.calls[:]
+            x_then = np.array(xin, copy=True) if isinstance(xin, np.ndarray) else None
             J = obj(xin, *args, **kwds)
+            if x_then is not None:
+                ctx.count('callers_array_unchanged_asserted')
+                if xin.tobytes() != x_then.tobytes():
+                    ctx.reject('callers_array_modified', observed=xin, expected=x_then)
+                    return
     except Exception as exc:
         ctx.reject('raised', observed=repr(exc)[:200], method=method, bounds=case['bounds'])
         return
